@@ -350,6 +350,9 @@ def obligations(tier, build):
                                   bounds={"stored entries s": s, "owner": "falsy (defines __bool__ / __len__)"},
                                   leverage="validity of keys/values"))
     import props._owners as owners_
+    obs.append(Obligation("detached/dict", owners_.detached_harness("dict"), bounds={"how the container lost its place": owners_.DETACH_HOWS,
+                                                                                      "operations": "3 valid, 2 refused by the built-in"},
+                          leverage="choice feasibility only"))
     obs.append(Obligation("sharing/dict", owners_.sharing_harness("dict"),
                           bounds={"ways of handing a value on": owners_.SHARING_HOWS, "declarations": "x and y from ONE shared definition object"},
                           leverage="choice feasibility only", stubs=[]))
